@@ -74,9 +74,10 @@ def install(ctx):
 
 def plan(tier, seed):
     n = 25 if tier == "quick" else 1200
-    specs = [{"mode": "synthetic", "n": n, "rseed": seed * 1000 + i} for i in range(13)]
+    specs = [{"mode": "synthetic", "n": n, "rseed": seed * 1000 + i, "optimize": i % 4 == 3} for i in range(13)]
     specs += [{"mode": "shipped", "which": w, "n": 40 if tier == "quick" else 1500, "rseed": seed * 1000 + 100 + k}
               for k, w in enumerate(["mex", "nimitz"])]
+    specs[-1]["optimize"] = True          # python -O: assert statements are compiled away
     specs += [{"mode": "script", "n": 12 if tier == "quick" else 300, "rseed": seed * 1000 + 200}]
     return specs
 
@@ -103,7 +104,7 @@ def drive(ctx, dump, rng, hdr, sf, table, strings, root, tag, k):
     ctx.case(tag + d.hex(), len(regs) > 1, sample={"regions": regs, "len": len(d)} if k < 2 else None)
     try:
         v = iogen.view_of(rng, d)
-        base = dump.parse_dump_data(v if isinstance(v, memoryview) else memoryview(v), hdr, sf)
+        base = dump.parse_dump_data(v if isinstance(v, memoryview) else memoryview(v), iogen.path_of(rng, hdr), iogen.path_of(rng, sf))
     except Exception as e:
         ctx.violation("C17/decoder-raised/" + type(e).__name__, "parse_dump_data raised %r" % (e,), data=d[:800])
         return d
